@@ -352,6 +352,7 @@ class SimNet:
         self.split_p = 0.0  # probability of a cut at any candidate point in default_cuts
         self.recv_cap_fn: Callable[[SimSocket], int] | None = None
         self.tx_log: list[tuple] = []  # (cid, mono, bytes)
+        self.tx_hook = None
 
     # ---- knobs ----------------------------------------------------------
 
@@ -374,6 +375,8 @@ class SimNet:
 
     def rec_tx(self, conn: SimConn, data: bytes, dropped: bool = False) -> None:
         self.tx_log.append((conn.cid, self.loop.mono, data))
+        if self.tx_hook is not None and not dropped:
+            self.tx_hook(conn, data)
         self.rec('net-tx', cid=conn.cid, n=len(data), data=data.hex() if len(data) <= 64 else data[:64].hex() + '..', dropped=dropped)
 
     # ---- connection set-up ------------------------------------------------
